@@ -675,6 +675,11 @@ fn run_case(entry: &str, inp: &[u8], param: u64, brk: i64) -> String {
                 Ok(p) => {
                     let x = p.parsed();
                     let mut s = format!("{} script={} x_lenm={} x_alloc={}", common(inp, x.as_ref(), p.remaining()), ws(inp, x.script()), Parse::len(x), allocs);
+                    // ParseResult::map hands the closure the very same result; parsed_owned gives the same object
+                    let direct = (p.consumed(), win(inp, p.remaining()), win(inp, x.as_ref()));
+                    let mapped = p.clone().map(|q| (q.consumed(), win(inp, q.remaining()), win(inp, q.parsed().as_ref())));
+                    let owned = p.clone().parsed_owned();
+                    write!(s, " x_map={}", (mapped == direct && &owned == x) as u8).unwrap();
                     s.push_str(&reparse_parse::<bsl::Script>(x.as_ref(), x));
                     let script = x.script().to_vec();
                     s.push_str(&rb_tokens::<bitcoin::ScriptBuf>(inp, Some(p.consumed()), |r| if r.as_bytes() == &script[..] { Ok(()) } else { Err("script".into()) }));
